@@ -175,6 +175,27 @@ pub fn gen_driver(prop: &str, rng: &mut Rng, sh: &mut Shards, out: &str, thoroug
                     progs.push((Program { data: Vec::new(), items, interp: false, stdin: Vec::new(), note: "syntax-truncated".into() }, lay));
                 }
             }
+            // the very first line of the file: a message / a prompt / a diagnostic citing line 1 (there is no line end before it)
+            for rep in 0..16 {
+                let variant = rep % 4;
+                let mut items: Vec<Item> = vec![Item::Label("start".into())];
+                match variant {
+                    0 | 1 => {
+                        items.push(Item::Ins(Ins::Print { what: PrintWhat::Flags }));
+                        items.push(Item::Ins(Ins::Int { n: 3 }));
+                        items.push(Item::Ins(Ins::Print { what: PrintWhat::Reg }));
+                    }
+                    2 => items.push(Item::Bad(Ins::Unsupported { text: "mov ax@, 5".into() }, "@".into())),
+                    _ => {
+                        items.push(Item::Bad(Ins::Unsupported { text: "add bx, $ ax".into() }, "$".into()));
+                        items.push(Item::Ins(Ins::Ctl { op: "nop" }));
+                    }
+                }
+                let mut lay = Layout::plain();
+                lay.label_same_line = true;
+                lay.trailing_newline = variant != 2;
+                progs.push((Program { data: Vec::new(), items, interp: variant == 1, stdin: nexts(rng, 12), note: format!("first-line-{}", variant) }, lay));
+            }
             // an undefined label reached through a macro (also a nested one) is reported at the outermost use
             for (defs, usetext) in [
                 (vec!["macro skipto(l) -> jmp l <-"], "skipto(nowhere_X)"),
